@@ -20,7 +20,7 @@ CASES = {'quick': 4000, 'thorough': 120000}
 SMALL_BLOCKS = 4      # runner: every 4th case keeps its stores in 2..10-token blocks
 GATES = {
     'quick': {'cases_in_small_blocks': 50, 'evaluations': 12000, 'parsed_values': 6000, 'applications': 5000, 'attached_operand_applications': 600,
-              'forms_seen': 11, 'form:inplace_self': 150, 'attribute_form_inplace': 40, 'leaf_edits': 500, 'whole_value_assignments': 250, 'whole_value_assignments_int': 100, 'subclass_constant_operands': 300, 'zero_constant_operands': 200, 'independence_checks': 3000, 'chains_ge3': 400, 'results_needing_parens': 300},
+              'forms_seen': 11, 'form:inplace_self': 150, 'attribute_form_inplace': 40, 'leaf_edits': 500, 'cases_under_another_decimal_context': 300, 'whole_value_assignments': 250, 'whole_value_assignments_int': 100, 'subclass_constant_operands': 300, 'zero_constant_operands': 200, 'independence_checks': 3000, 'chains_ge3': 400, 'results_needing_parens': 300},
     'thorough': {'evaluations': 400000, 'forms_seen': 10},
 }
 RULE = ('case = two random expression texts (depth <=4, arbitrary spacing, redundant parentheses, thousands separators) parsed as '
@@ -160,6 +160,18 @@ def make_operand(col, r, text, value):
 
 
 def run_case(col, r, idx):
+    if idx % 5 == 4:
+        # under another arithmetic context (precision, rounding) than the one that was current when the library was imported:
+        # "ordinary arithmetic" is the arithmetic of the context in force, for every operator
+        with decimal.localcontext() as ctx:
+            ctx.prec = r.choice([6, 12, 40, 60])
+            ctx.rounding = r.choice([decimal.ROUND_HALF_EVEN, decimal.ROUND_UP, decimal.ROUND_DOWN, decimal.ROUND_HALF_UP])
+            col.count('cases_under_another_decimal_context')
+            return _run_case(col, r, idx)
+    return _run_case(col, r, idx)
+
+
+def _run_case(col, r, idx):
     P = common.parser()
     texts = [rexpr(r), rexpr(r), rexpr(r)]
     vals = []
